@@ -4,6 +4,7 @@ from pe2 import Case
 import gen
 
 RELEVANT = ('stdout', 'exit', 'diagkinds')
+BIG = dict(steps=200000)
 ASSUMPTIONS = ["the independent calendar of the intrinsic oracle is Python's datetime (proleptic Gregorian, years 1..9999)"]
 
 def valid(d, m, y):
@@ -35,7 +36,7 @@ def generate(tier, rng):
                 if tier == 'quick' or (d % 7 == 0) or d <= 32 and m <= 13:
                     ent.append(('%d/%d/%d' % (d, m, y), (d, m, y)))
         for ch in chunked(ent):
-            cases.append(Case(mode='repl', stdin=gen.join([e[0] for e in ch]),
+            cases.append(Case(mode='repl', stdin=gen.join([e[0] for e in ch]), limits=BIG,
                               meta=dict(gen='date-grid', expect=[e[1] for e in ch], sample=len(cases) < 1)))
     # years sweep for fixed (d, m)
     ys = list(range(1, 10000)) if tier == 'thorough' else sorted(set([1, 2, 3, 4, 99, 100, 400, 1582, 1600, 1700, 1900, 2000, 2023, 2024, 2100, 9999] + [rng.randint(1, 9999) for _ in range(300)]))
@@ -45,7 +46,7 @@ def generate(tier, rng):
             ent.append(('SETDATE(%d, %d, %d)' % (d, m, y), (d, m, y)))
             ent.append(('%d/%d/%d' % (d, m, y), (d, m, y)))
         for ch in chunked(ent):
-            cases.append(Case(mode='repl', stdin=gen.join([e[0] for e in ch]), meta=dict(gen='date-years', expect=[e[1] for e in ch], sample=False)))
+            cases.append(Case(mode='repl', stdin=gen.join([e[0] for e in ch]), limits=BIG, meta=dict(gen='date-years', expect=[e[1] for e in ch], sample=False)))
     # components far outside the calendar, where narrowing conversions wrap
     far = [256 + 1, 256 + 29, 512 + 2, 65536 + 2020, 65536 + 1, 70000, 32768, 32767, 4294967296 + 1, 4294967297, 18446744073709551617, 99999999999999999999]
     ent = []
@@ -55,7 +56,7 @@ def generate(tier, rng):
                 ent.append(('SETDATE(%d, %d, %d)' % (d, m, y), (d, m, y)))
             ent.append(('%d/%d/%d' % (d, m, y), (d, m, y)))
             ent.append(('SETDATE(-%d, 1, 2020)' % (a % 1000 + 1), (-1, 1, 2020)))
-    cases.append(Case(mode='repl', stdin=gen.join([e[0] for e in ent]), meta=dict(gen='date-far', expect=[e[1] for e in ent])))
+    cases.append(Case(mode='repl', stdin=gen.join([e[0] for e in ent]), limits=BIG, meta=dict(gen='date-far', expect=[e[1] for e in ent])))
     # accessor functions and DAYINDEX
     if tier == 'thorough':
         dates = []
@@ -72,11 +73,11 @@ def generate(tier, rng):
                 dates.append((d, m, y))
     for ch in chunked(dates, 3000):
         ent = ['DAYINDEX(%d/%d/%d)' % t for t in ch]
-        cases.append(Case(mode='repl', stdin=gen.join(ent), meta=dict(gen='dayindex', dates=ch, sample=False)))
+        cases.append(Case(mode='repl', stdin=gen.join(ent), limits=BIG, meta=dict(gen='dayindex', dates=ch, sample=False)))
     acc = []
     for (d, m, y) in dates[:200]:
         acc += ['DAY(%d/%d/%d)' % (d, m, y), 'MONTH(SETDATE(%d, %d, %d))' % (d, m, y), 'YEAR(%d/%d/%d)' % (d, m, y)]
-    cases.append(Case(mode='repl', stdin=gen.join(acc), meta=dict(gen='accessors', dates=dates[:200])))
+    cases.append(Case(mode='repl', stdin=gen.join(acc), limits=BIG, meta=dict(gen='accessors', dates=dates[:200])))
     # comparisons on a sample of dates
     sample = rng.sample(dates, min(len(dates), 400 if tier == 'thorough' else 60))
     sample += [(28, 2, 2023), (1, 3, 2023), (31, 1, 2023), (1, 2, 2023), (31, 12, 1999), (1, 1, 2000)]
@@ -86,7 +87,7 @@ def generate(tier, rng):
             for op in ['=', '<>', '<', '<=', '>', '>=']:
                 ent.append('%d/%d/%d %s %d/%d/%d' % (a + (op,) + b)); exp.append((a, op, b))
     for i in range(0, len(ent), 4000):
-        cases.append(Case(mode='repl', stdin=gen.join(ent[i:i + 4000]), meta=dict(gen='date-compare', cmp=exp[i:i + 4000], sample=i == 0)))
+        cases.append(Case(mode='repl', stdin=gen.join(ent[i:i + 4000]), limits=BIG, meta=dict(gen='date-compare', cmp=exp[i:i + 4000], sample=i == 0)))
     # printing
     cases.append(Case(gen.join(['DECLARE d : DATE', 'd <- 5/3/2021', 'OUTPUT d', 'OUTPUT "on " & d', 'OUTPUT STRING(d)',
                                 'OPENFILE "f.txt" FOR WRITE', 'WRITEFILE "f.txt", d', 'CLOSEFILE "f.txt"']), meta=dict(gen='date-print')))
